@@ -4,7 +4,7 @@ import json
 import os
 import re
 
-from vlib import sched, sigreal
+from vlib import sched, sigexec, sigreal
 from vlib.sigcheck import (PLANS, SGN, SIGINT, SIGTSTP, TRUSTED, accept_all, analyse, detect_shutdown_form, detect_worker_form, explore_sig,
                            gen_case, offenders, pack, plan_signals, project_sig)
 
@@ -62,6 +62,7 @@ def corpus_cases():
     """schedules kept because they once mattered"""
     one = [{"name": "h0", "out": [[0, b"o0-0\n".hex()], [0, "EOF"]]}]
     two = one + [{"name": "h1", "out": [[0, b"o1-0\n".hex()], [0, "EOF"]]}]
+    three = two + [{"name": "h2", "out": [[0, b"o2-0\n".hex()], [0, "EOF"]]}]
     opts = {"labels": 1, "ct": 0, "ut": 0, "tstates": 1, "batch": 0}
     base = {"inline": 1, "budget": 1500, "yield": "fan,thd,sig", "strategy": "list"}
     return [
@@ -75,6 +76,13 @@ def corpus_cases():
         # dsh() cancels the signals thread in the middle of a handler (interrupt during the final drain)
         dict(base, fanout=1, hosts=one, opts=opts,
              choices="D D D D D D D D W0 W0 W0 W0 W0 W0 W0 W0 W0 W0 W0 W0 D W0 D D i2 Z D D D".split()),
+        # ^C ^Z while h0 runs and two targets are undispatched (fanout 1 < N = 3): both are canceled, the dispatcher must
+        # pass over them, release threadcount_mutex and drain; run to the end
+        dict(base, fanout=1, hosts=three, opts=opts,
+             choices="D D D D D D D D W0 W0 W0 W0 W0 W0 i2 Z Z Z i20 Z Z Z".split()),
+        # the same with fanout 2 < N = 3 and h2 the only undispatched target; h0, h1 connecting / running
+        dict(base, fanout=2, hosts=three, opts=opts,
+             choices="D D D D D D D D D D D W0 W0 W0 W0 W1 W1 W1 i2 Z Z Z i20 Z Z Z".split()),
         # batch ^C before the first connection
         dict(base, fanout=1, hosts=two, opts=dict(opts, batch=1), choices="D D D i2 Z Z Z".split()),
     ]
@@ -87,6 +95,14 @@ def base_key(case):
 def replay_case(ctx, exe, variant, wform, sform):
     rp = json.load(open(ctx.replay))
     case = (rp.get("case") or {}).get("case") or rp.get("case")
+    if isinstance(rp.get("case"), dict) and rp["case"].get("scenario"):
+        offs, nsc = sigexec.run(ctx)
+        for sig, what, c in offs:
+            ctx.log("replay: %s %s" % (sig, what))
+            ctx.offender(sig, what, c)
+        if not offs:
+            ctx.log("replay: the exec module delivers the forwarded signal in all %d scenarios" % nsc)
+        return
     if not isinstance(case, dict) or "hosts" not in case:
         for b in rp.get("broken", []):
             k = str(b[-1]).find(":: case=")
@@ -240,6 +256,14 @@ def run(ctx, PROPS, LEVEL):
     def enough():
         return newcount[0] >= 40 or dist["rejects"] >= 200
 
+    # (0) forwarding at the module level: the real execcmd.c / pipecmd.c on real children, efd as dsh.c keeps it
+    xoffs, nsc = sigexec.run(ctx)
+    cov["evaluations"] += nsc
+    dist["execsig_scenarios"] = nsc
+    for sig, what, c in xoffs:
+        newcount[0] += 1
+        ctx.offender(sig, what, c)
+
     # (a) corpus
     consume(sched.run_many(exe_san, corpus_cases(), ctx.scratch), "corpus")
 
@@ -248,9 +272,9 @@ def run(ctx, PROPS, LEVEL):
     two = [{"name": "h0", "out": [[0, b"o0-0\n".hex()], [0, "EOF"]]},
            {"name": "h1", "out": [[0, b"o1-0\n".hex()], [0, "EOF"]], "connect_at": 1}]
     far = [{"name": "h0", "out": [[3, b"o0-0\n".hex()], [3, "EOF"]]}]
-    dfs = [("n1f1", 1, one, [SIGINT], 1), ("n1f1", 1, one, [SIGINT, SIGTSTP], 0), ("n1f1", 1, one, [SIGINT, SIGINT], 0)]
+    dfs = [("n1f1", 1, one, [SIGINT], 1), ("n1f1", 1, one, [SIGINT, SIGTSTP], 0)]
     if not ctx.quick():
-        dfs += [("n1f1-slow", 1, far, [SIGINT, SIGINT], 0), ("n1f1-slow", 1, far, [SIGINT, SIGTSTP], 0),
+        dfs += [("n1f1", 1, one, [SIGINT, SIGINT], 0), ("n1f1-slow", 1, far, [SIGINT, SIGINT], 0), ("n1f1-slow", 1, far, [SIGINT, SIGTSTP], 0),
                 ("n1f1", 1, one, [SIGTSTP], 0), ("n2f1", 1, two, [SIGINT], 1), ("n2f1", 1, two, [SIGINT, SIGTSTP], 0),
                 ("n2f2", 2, two, [SIGINT], 1), ("n2f2", 2, two, [SIGINT], 0), ("n2f2", 2, two, [SIGINT, SIGTSTP], 0),
                 ("n2f1", 1, two, [SIGINT, SIGINT], 0)]
@@ -266,7 +290,7 @@ def run(ctx, PROPS, LEVEL):
             if len(buf) >= 1200:
                 consume(buf[:], "dfs")
                 del buf[:]
-        st = explore_sig(exe, ctx.scratch, basec, plan, on, max_runs=4000 if ctx.quick() else 250000, stop=enough)
+        st = explore_sig(exe, ctx.scratch, basec, plan, on, max_runs=3000 if ctx.quick() else 250000, stop=enough)
         consume(buf, "dfs")
         st.update({"config": name, "plan": "-".join(SGN[x] for x in plan), "batch": batch})
         dist["dfs"].append(st)
@@ -329,9 +353,9 @@ def run(ctx, PROPS, LEVEL):
         ctx.log("every position %s: %d runs" % (name, len(cases)))
 
     # (d) random cases, random delivery steps
-    nrand = 700 if ctx.quick() else 20000
+    nrand = 500 if ctx.quick() else 20000
     nmax = 8 if ctx.quick() else 24
-    CH = 700 if ctx.quick() else 1500
+    CH = 500 if ctx.quick() else 1500
     done = 0
     while done < nrand and not enough():
         cs = [gen_case(rng, nmax) for _ in range(min(CH, nrand - done))]
